@@ -40,6 +40,14 @@ def unary_comment(cls, prog, out, ex):
 def paren_inner(cls, prog, out, ex):
     return cls == 'comment-lost' and re.search(r'\( \n--c\d+x\n|: \n--c\d+x\n\(|\{ \n--c\d+x\n\(', prog) is not None
 
+@rule("KF-RAW-COMMENT-COPY", "comments that the formatter MOVES (behind a removed `;`, out of removed parentheses, in front of a hung operator, ...) are copied as raw tokens and skip the normalisation that in-place comments get: a block comment keeps its original line breaks and a line comment keeps its trailing carriage return, whatever line_endings says")
+def raw_comment(cls, prog, out, ex):
+    return cls == 'line-ending' and '--' in prog
+
+@rule("KF-COMMENT-INDENT", "a comment in an odd place (between a name and `=`, inside a prefix expression, ...) makes the formatter emit a continuation line that starts with a single space instead of an indent unit")
+def comment_indent(cls, prog, out, ex):
+    return cls == 'indentation' and '--' in prog
+
 @rule("KF-IDEM-COMMENT", "a comment inside a construct moves again on the second pass (the first pass re-attaches it to another token, which the second pass lays out differently)")
 def idem_comment(cls, prog, out, ex):
     return cls == 'not-idempotent' and '--' in prog
